@@ -97,6 +97,8 @@ RCP<const Basic> Infty::conjugate() const
 
 RCP<const Number> Infty::add(const Number &other) const
 {
+    if (is_a<NaN>(other))
+        return Nan;
     if (not is_a<Infty>(other))
         return rcp_from_this_cast<Number>();
 
@@ -131,20 +133,27 @@ RCP<const Number> Infty::mul(const Number &other) const
 
 RCP<const Number> Infty::div(const Number &other) const
 {
-    if (is_a<Infty>(other)) {
+    if (is_a<Complex>(other))
+        throw NotImplementedError("Division by Complex not implemented");
+
+    if (is_a<Infty>(other) or is_a<NaN>(other)) {
         return Nan;
     } else {
         if (other.is_positive())
             return rcp_from_this_cast<Number>();
         else if (other.is_zero())
             return infty(0);
-        else
+        else if (other.is_negative())
             return infty(this->_direction->mul(*minus_one));
+        else
+            return Nan;
     }
 }
 
 RCP<const Number> Infty::pow(const Number &other) const
 {
+    if (is_a<NaN>(other))
+        return Nan;
     if (is_a<Infty>(other)) {
         if (is_positive_infinity()) {
             if (other.is_negative()) {
